@@ -27,6 +27,24 @@ theorem dsin_dd (x y : ℝ) : Dsin x y * (x - y) = sin x - sin y := by
 theorem dsin_confluent (x : ℝ) : Dsin x x = cos x := by
   unfold Dsin; simp [lit0, lit1, lit2]
 
+/-! ### `Dh`: confluent value -/
+
+theorem dh_confluent (x : ℝ) : Dh x x = x * (2 + x ^ 2) / (2 * sc x ^ 3) := by
+  have hx := sc_pos x
+  have hx2 := sc_sq x
+  have hxn : sc x ≠ 0 := hx.ne'
+  unfold Dh
+  simp only [eqb_real, leb_real, decide_eq_true_eq, lit0, lit2, sn_real, sq_real]
+  by_cases h0 : x = 0
+  · subst h0; simp
+  have hd : (x / sc x * x + x / sc x * x) / 2 ≠ 0 := by
+    have : (x / sc x * x + x / sc x * x) / 2 = x ^ 2 / sc x := by field_simp; ring
+    rw [this]; positivity
+  have hxx : ¬ x * x ≤ 0 := by nlinarith [sq_nonneg x, sq_pos_of_ne_zero h0]
+  rw [if_neg hd, if_neg hxx]
+  field_simp
+  ring
+
 /-! ### `atan2` with a positive abscissa -/
 
 theorem arg_of_pos (x y : ℝ) (hx : 0 < x) : Complex.arg ⟨x, y⟩ = Real.arctan (y / x) := by
